@@ -143,7 +143,7 @@ func famCancel(w *World, c *Case, rng *rand.Rand) {
 		// park the client's receive loop and finish path for PRNG-chosen virtual
 		// durations so that either side of the race can win
 		plan := &YieldPlan{Parks: map[string][]time.Duration{}}
-		for _, pt := range []string{"client.recv.gotFrame", "client.finish.afterDone", "client.cancel.beforeReceiverCancel", "client.finish.betweenPublish"} {
+		for _, pt := range []string{"client.recv.gotFrame", "client.recv.beforeAccept", "client.finish.afterDone", "client.cancel.beforeReceiverCancel", "client.finish.betweenPublish"} {
 			ds := make([]time.Duration, 40)
 			for i := range ds {
 				if rng.Intn(3) == 0 {
